@@ -17,9 +17,15 @@ def check_c08(tier):
 
     ccases, cstats = gen_conv()
     cres = sympyx.replay_conversions(ccases)
+    # coordinate assignment on symbolic vectors (ObjectSM's Set action): what is read afterwards is what the numeric
+    # object gives after the same assignment
+    from . import objsm
+
+    srecs, scalls = objsm.sympy_setters()
     v = common.Verdicts("C08")
     v.extend(res["records"])
     v.extend(cres["records"])
+    v.extend(srecs)
     nviol, nknown = v.finish()
     if res["calls"] < 1000 or res["expressions"] < 200:
         raise RuntimeError("vacuous run")
